@@ -17,6 +17,13 @@ abbrev Equiv {β : Type} [Inhabited β] := @Proofs.Equiv β _
 -- `TotalLe le` (a total preorder given by a Boolean `le`) is defined in Gonnx/Proofs/Reduce.lean,
 -- still in namespace `Gonnx.C09`.
 
+-- concrete instance shared by the non-vacuity examples below: `≤` on `Int` (`TotalLe` by
+-- `Proofs.Reduce.totalLe_int`, antisymmetric by `Proofs.Reduce.antisymm_int`), tensors with ties
+private def nv_le : Int → Int → Bool := fun a b => decide (a ≤ b)
+private def nv_t : Tensor Int := ⟨[2, 3], [1, 5, 5, 7, 2, 7]⟩
+private def nv_u : Tensor Int := ⟨[2, 3, 2], [1, 5, 5, 7, 2, 7, -3, 0, 9, 4, 4, 8]⟩
+private def nv_lane : Int → List Int → List Int := fun anchor lane => lane.map (· - anchor)
+
 -- `hW` is part of the fixed statement; the proof does not need it
 set_option linter.unusedVariables false in
 /-- **ArgMax** (partial): for every valid axis spelling and keepdims, except the rank-1/keepdims=0 corner,
@@ -29,6 +36,13 @@ theorem argmax_partial (le : α → α → Bool) (hle : TotalLe le) (t : Tensor 
     ∃ m mu, argmaxOp (fun a b => !le b a) t axis keep = .ok (m, mu) ∧ Equiv m s :=
   Proofs.Reduce.argmax_partial le hle t axis keep hpos ax hax hcorner s hs
 
+-- non-vacuity: 2×3, axis -1, no keepdims (ties: first occurrence) …
+example : ∃ m mu, argmaxOp (fun a b => !nv_le b a) nv_t (-1) false = .ok (m, mu) ∧ Equiv m ⟨[2], [1, 0]⟩ :=
+  argmax_partial nv_le Proofs.Reduce.totalLe_int nv_t (-1) false rfl (by simp [Proofs.Pos, nv_t]) 1 (by decide) (by decide) _ (by decide)
+-- … and 2×3×2, axis -2, keepdims
+example : ∃ m mu, argmaxOp (fun a b => !nv_le b a) nv_u (-2) true = .ok (m, mu) ∧ Equiv m ⟨[2, 1, 2], [1, 1, 1, 2]⟩ :=
+  argmax_partial nv_le Proofs.Reduce.totalLe_int nv_u (-2) true rfl (by simp [Proofs.Pos, nv_u]) 1 (by decide) (by decide) _ (by decide)
+
 -- `hn` is part of the fixed statement; the proof does not need it
 set_option linter.unusedVariables false in
 /-- the rank-1 / keepdims=0 corner is refused with an error although ONNX defines a scalar (known finding) -/
@@ -36,16 +50,28 @@ theorem argmax_rank1_nokeep (lt : α → α → Bool) (t : Tensor α) (n : Nat) 
     argmaxOp lt t 0 false = .error .other :=
   Proofs.Reduce.argmax_rank1_nokeep lt t n h
 
+-- non-vacuity: a vector of 3
+example : argmaxOp (fun a b : Int => decide (a < b)) ⟨[3], [1, 5, 2]⟩ 0 false = .error .other :=
+  argmax_rank1_nokeep _ ⟨[3], [1, 5, 2]⟩ 3 rfl (by decide)
+
 /-- effect: ArgMax never writes to its input, with or without keepdims (since the `fix:` commit that
 clones the shape; before it, keepdims overwrote the input's own shape — fixed finding, see C02) -/
 theorem argmax_pure (lt : α → α → Bool) (t : Tensor α) (axis : Int) (keep : Bool) (m : Tensor Int) (mu : Option (List Nat))
     (h : argmaxOp lt t axis keep = .ok (m, mu)) : mu = none :=
   Proofs.Reduce.argmax_pure lt t axis keep m mu h
 
+-- non-vacuity: the hypothesis `h` holds for the 2×3×2 tensor, axis -2, keepdims
+example : (none : Option (List Nat)) = none :=
+  argmax_pure (fun a b => !nv_le b a) nv_u (-2) true ⟨[2, 1, 2], [1, 1, 1, 2]⟩ none (by decide)
+
 /-- without keepdims nothing is written to the input -/
 theorem argmax_nokeep_pure (lt : α → α → Bool) (t : Tensor α) (axis : Int) (m : Tensor Int) (mu : Option (List Nat))
     (h : argmaxOp lt t axis false = .ok (m, mu)) : mu = none :=
   Proofs.Reduce.argmax_nokeep_pure lt t axis m mu h
+
+-- non-vacuity: the hypothesis `h` holds for the 2×3×2 tensor, axis 0
+example : (none : Option (List Nat)) = none :=
+  argmax_nokeep_pure (fun a b => !nv_le b a) nv_u 0 ⟨[3, 2], [0, 0, 1, 0, 1, 1]⟩ none (by decide)
 
 /-- The originally stated **ReduceMax / ReduceMin** theorem `reduce_partial` (generic element type, `le`
 only a total preorder), verbatim, specialised to the element type `Nat × Nat` to make it closed.
@@ -94,6 +120,15 @@ theorem reduce_partial' (le : α → α → Bool) (hle : TotalLe le)
     ∃ m, reduceOp (fun a b => !le a b) t axes keep = .ok m ∧ Equiv m s :=
   Proofs.Reduce.reduce_partial' le hle hantisymm t axes keep nax hax hnd hguard hinner s hs
 
+-- non-vacuity: ReduceMax of a 2×3×2 tensor over the axes [-1, 0] (negative spelling, unsorted), keepdims …
+example : ∃ m, reduceOp (fun a b => !nv_le a b) nv_u [-1, 0] true = .ok m ∧ Equiv m ⟨[1, 3, 1], [5, 9, 8]⟩ :=
+  reduce_partial' nv_le Proofs.Reduce.totalLe_int Proofs.Reduce.antisymm_int nv_u [-1, 0] true rfl (by simp [Proofs.Pos, nv_u])
+    [2, 0] (by decide) (by decide) (by decide) (by decide) _ (by decide)
+-- … and of a rank-4 tensor over its last axis (`hinner` is not trivially true there: rank ≥ 4, axis ≥ 2)
+example : ∃ m, reduceOp (fun a b => !nv_le a b) (⟨[1, 2, 3, 2], nv_u.data⟩ : Tensor Int) [3] false = .ok m ∧ Equiv m ⟨[1, 2, 3], [5, 7, 7, 0, 9, 8]⟩ :=
+  reduce_partial' nv_le Proofs.Reduce.totalLe_int Proofs.Reduce.antisymm_int ⟨[1, 2, 3, 2], nv_u.data⟩ [3] false rfl (by simp [Proofs.Pos])
+    [3] (by decide) (by decide) (by decide) (by decide) _ (by decide)
+
 /-- The guard of the model, documented: reducing an inner axis (neither one of the first two nor the
 last) of a tensor of rank ≥ 4 FIRST is not modelled; instance rank 4, `axes = [2]`, any `keepdims`.
 This is the known finding `reduce.rank4_inner_axis_first` of the real code: gorgonia's Max/Min on an
@@ -103,10 +138,18 @@ theorem reduce_rank4_inner_unmodelled (better : α → α → Bool) (t : Tensor 
     (h : t.shape.length = 4) : reduceOp better t [2] keep = .error .unmodelled :=
   Proofs.Reduce.reduce_rank4_inner_unmodelled better t keep h
 
+-- non-vacuity: a 1×2×3×2 tensor
+example : reduceOp (fun a b => !nv_le a b) (⟨[1, 2, 3, 2], nv_u.data⟩ : Tensor Int) [2] true = .error .unmodelled :=
+  reduce_rank4_inner_unmodelled _ ⟨[1, 2, 3, 2], nv_u.data⟩ true rfl
+
 /-- "all axes when none are given" with keepdims is an error unless the input has one element (known finding) -/
 theorem reduce_no_axes_keepdims (better : α → α → Bool) (t : Tensor α) (h : prod t.shape ≠ 1) :
     reduceOp better t [] true = .error .shape :=
   Proofs.Reduce.reduce_no_axes_keepdims better t h
+
+-- non-vacuity: 12 elements
+example : reduceOp (fun a b => !nv_le a b) nv_u [] true = .error .shape :=
+  reduce_no_axes_keepdims _ nv_u (by decide)
 
 /-- **Softmax / LogSoftmax** normalise along the requested axis only: the output has the input's shape
 and the element at `idx` is entry `idx[axis]` of the lane function applied to the lane through `idx`
@@ -121,10 +164,22 @@ theorem softmax_lane (f : α → List α → List α) (t : Tensor α) (axis : In
              ((List.range (dim t.shape ax)).map fun k => t.get (idx.set ax k))).getD (idx.getD ax 0) default :=
   Proofs.Reduce.softmax_lane f t axis ax hax
 
+-- non-vacuity: a 2×3 tensor, axis -2 (an inner axis: the anchor is the lane's first element), lane function "subtract the anchor"
+example : ∃ out, softmaxOp nv_lane nv_t (-2) = .ok out ∧ out.shape = nv_t.shape ∧ out.WF ∧
+      ∀ idx, InRange idx nv_t.shape →
+        out.get idx =
+          (nv_lane (if 0 + 1 = nv_t.shape.length then nv_t.data.headD default else nv_t.get (idx.set 0 0))
+             ((List.range (dim nv_t.shape 0)).map fun k => nv_t.get (idx.set 0 k))).getD (idx.getD 0 0) default :=
+  softmax_lane nv_lane nv_t (-2) 0 (by decide)
+
 /-- an axis outside [-rank, rank) is refused with the axis error -/
 theorem softmax_axis_error (f : α → List α → List α) (t : Tensor α) (axis : Int)
     (h : Spec.normAxis t.shape.length axis = none) : softmaxOp f t axis = .error .axis :=
   Proofs.Reduce.softmax_axis_error f t axis h
+
+-- non-vacuity: axis 2 for a rank-2 tensor
+example : softmaxOp nv_lane nv_t 2 = .error .axis :=
+  softmax_axis_error nv_lane nv_t 2 (by decide)
 
 -- non-vacuity
 example : TotalLe (fun a b : Int => decide (a ≤ b)) ∧
